@@ -9,6 +9,9 @@ CLAIMS = {
  "C01": ("control-dependence (edge-dominance) of match acceptance and whole-file-op detection, value provenance of the short-size class, cyclic must-pass-through framing rules on the writer loops, set agreement of emitted vs handled op/series kinds, codec pairing (go/ssa)",
          "Decides structural necessary conditions, not the behaviour: a block matches only under non-empty window, equal short-size class (taken from the final short read) and strong-hash equality; whole-file ops are recognised only under equal sizes, full span and BLOCK_RANGE; every file's series is opened by a SyncHeader and closed by HEY_YOU_DID_IT on every path of WritePatch and Optimize (BsdiffHeader before a bsdiff series, unmapped ops copied verbatim); emitted op and series kinds are handled by the patcher; the fresh bowl prepares its folder; compressors/decompressors pair up. The rolling search, replay arithmetic and tree equality are NOT decided.",
          "DESIGN.md 4 (C01)"),
+ "C07": ("reaching-definition analysis of divisors and of the partition count (phi operands, backward walk over local cells with branch outcomes on the way), cyclic framing path rules on Optimize, end-of-series must-pass-through (go/ssa)",
+         "Decides structural necessary conditions of 'terminates without crashing for every parameter setting' and of framing, not result equality: no integer division by a floor quotient/difference/length that can be zero without a non-zero test on every reaching definition; the partition count given to the suffix sorter is 1 or bounded against the old buffer's length; Optimize keeps per-file framing and copies unmapped ops verbatim; every bsdiff series ends with Eof. Equality of the optimized patch's result is NOT decided.",
+         "DESIGN.md 4 (C07)"),
  "C08": ("exactly-one-update path counting, callee identity agreement (same hash functions on both sides), phi/control-dependence shape of the rolling/skip flags, loop-exhaustion edge dominance (go/ssa)",
          "Decides structural necessary conditions of 'equal content costs no fresh bytes' and 'reused + fresh = size', not the numbers: every op written is counted exactly once; differ and signer use the same weak and strong hash functions; the rolling state is reset after a match and the lookup skipped only while rolling; the library holds every hash and the matcher gives up only after searching the whole bucket. Byte counts, the per-edit bound and the rolling-update arithmetic are NOT decided.",
          "DESIGN.md 4 (C08)"),
@@ -21,6 +24,9 @@ CLAIMS = {
  "C03": ("set agreement over type-checked field accesses (saved vs restored checkpoint fields, per type and per Save/Resume implementation; gob registrations), literal-completeness, must-pass-through / error-gating path rules, constant flag checks, control-dependence provenance (go/ssa)",
          "Decides structural necessary conditions, not the behaviour: every checkpoint field is saved and restored (type level, and per Bowl/EntryWriter implementation: what its Save writes its own Resume reads); the literal handed to SaveConsumer.Save is complete; entry writers report an offset only after Flush and a checked fsync; reopening never truncates and repositions from the checkpoint (both offsets for the overlay writer); every successful series end finalizes the writer; work lists are de-duplicated by their owners; checkpoint payload types are gob-registered; checkpoints are requested inside the loops and offered. Agreement of the four state layers at every interruption point and content equality after resume are NOT decided.",
          "DESIGN.md 4 (C03)"),
+ "C04": ("contradiction rule over three sibling functions (empty-file special case), writer/reader stream-prefix agreement extracted from dominance-ordered framing events per stream root, value-provenance rule for the shared read, provenance of symlink-destination comparisons (go/ssa)",
+         "Decides structural necessary conditions, not the behaviour: producer, reader and grouping of signatures agree on the empty-file hash; the signature stream's and the patch stream's non-loop prefixes (magic, header, compression point, containers and their identity/order) are the same on every writer and reader; diff and signature consume two Reader()s of one multiread over pool.GetReader(fileIndex) for the same index; symlink destinations are compared modulo FromSlash only. Block boundaries under re-chunking and hash values are NOT decided.",
+         "DESIGN.md 4 (C04)"),
  "C05": ("control-dependence (edge-dominance) rules over go/ssa: healthy-verdict guards, literal-shape ordering of Wound ranges, guard-token classification of wound emission sites, must-consume path rule for the aggregation loop",
          "Decides structural necessary conditions, not the behaviour: a block is declared healthy only under index-in-range and strong-hash equality (both sibling validators); every FILE/CLOSED_FILE wound literal has Start <= End by construction; every deviation test the property enumerates (missing/kind/destination/open error/shorter/longer) controls a wound emission; the aggregator keeps, merges or forwards every incoming wound and flushes before close. That reported wounds cover every differing offset (block arithmetic) is NOT decided.",
          "DESIGN.md 4 (C05)"),
@@ -30,6 +36,9 @@ CLAIMS = {
  "C09": ("must-pass-through / verdict-gating path rules, escape (who-may-touch) analysis of the wrapped reader, value-provenance rules for the position mirror, over go/ssa",
          "Decides structural necessary conditions, not the behaviour: the wrapped reader is read only after validateBlock and only on its nil verdict; raw pool readers never escape the validating wrapper; validateBlock restores the saved position on every path after moving the reader; the wrapper's offset mirrors the wrapped reader's position at construction, Seek and Read. Which damage a given patch happens to read, and the EOF case of 64KiB-multiple files (F13, arithmetic), are NOT decided.",
          "DESIGN.md 4 (C09)"),
+ "C12": ("end-of-series must-pass-through, offset-accounting path rules with nil/len edge filtering, slot-bookkeeping provenance rules in the read cache, reaching-definition divisor rule (go/ssa)",
+         "Decides structural necessary conditions, not the behaviour: every series ends with an Eof control on every success path; Apply positions the cache at OldOffset before adding and advances OldOffset by len(Add) and Seek exactly once on success; the cache stores a new chunk in a free slot, marks it, tells the LRU, frees exactly the evicted slot through a registered callback and frees all on Reset; partition arithmetic cannot divide by zero. That add+copy tile the new file, the suffix search and the cache's index arithmetic are NOT decided.",
+         "DESIGN.md 4 (C12)"),
  "C13": ("who-may-call / effect confinement of source reads, must-update path rules, typestate shape of the three-state save protocol, set agreement of codec registrations and magic constants, call-graph unreachability (go/ssa + CHA)",
          "Decides structural necessary conditions, not the behaviour: every read of the underlying source happens in the counting reader or Resume and updates the counted offset; framing reads go through the counting reader; the save protocol's transitions and the content of the popped checkpoint have the required shape and PopCheckpoint is unreachable from inside ReadMessage; compressors and decompressors are registered pairwise for the same algorithms with matching implementations, NONE is a pass-through; every magic written has a reader; Read counts are never discarded in package wire. The round trip itself and savior's decompressor checkpoints are NOT decided.",
          "DESIGN.md 4 (C13)"),
